@@ -108,6 +108,7 @@ func (fv *FuncVer) callValue(st *State, ins ssa.Instruction, callee Val, args []
 		fn := cv.Fn
 		if r, ok := fv.model(st, ins, fn, args, cc); ok {
 			fv.bindResult(st, res, r)
+			fv.afterCall(st, fn.String())
 			f.ip++
 			return true
 		}
